@@ -307,7 +307,7 @@ func replayFile(t *testing.T, env Env) {
 		fails = s.ReplayCustom(v.Input)
 	} else {
 		cfg, body := s.Setup(env.Tier)
-		e := RunOnce(v.Picks, Options{MaxSteps: cfg.MaxSteps, TimerBudget: cfg.TimerBudget, Trace: true}, body)
+		e := RunOnce(v.Picks, Options{MaxSteps: cfg.MaxSteps, TimerBudget: cfg.TimerBudget, Trace: true, AllowDeadlock: cfg.AllowDeadlock}, body)
 		for _, l := range RenderTrace(e) {
 			fmt.Println("  " + l)
 		}
